@@ -204,8 +204,14 @@ class FTPFile(io.RawIOBase):
                 finally:
                     super(FTPFile, self).close()
 
+    def _check_closed(self):
+        # type: () -> None
+        if self.closed:
+            raise ValueError("I/O operation on closed file")
+
     def tell(self):
         # type: () -> int
+        self._check_closed()
         return self.pos
 
     def readable(self):
@@ -213,12 +219,13 @@ class FTPFile(io.RawIOBase):
         return self.mode.reading
 
     def read(self, size=-1):
-        # type: (int) -> bytes
+        # type: (Optional[int]) -> bytes
+        self._check_closed()
         if not self.mode.reading:
             raise IOError("File not open for reading")
 
         chunks = []
-        remaining = size
+        remaining = -1 if size is None else size
 
         conn = self.read_conn
         with self._lock:
@@ -250,13 +257,18 @@ class FTPFile(io.RawIOBase):
 
     def readline(self, size=None):
         # type: (Optional[int]) -> bytes
-        return next(line_iterator(self, size))  # type: ignore
+        self._check_closed()
+        if not self.mode.reading:
+            raise IOError("File not open for reading")
+        return next(line_iterator(self, size), b"")  # type: ignore
 
     def readlines(self, hint=-1):
         # type: (int) -> List[bytes]
         lines = []
         size = 0
         for line in line_iterator(self):  # type: ignore
+            if not line:
+                break
             lines.append(line)
             size += len(line)
             if hint != -1 and size > hint:
@@ -269,6 +281,7 @@ class FTPFile(io.RawIOBase):
 
     def write(self, data):
         # type: (Union[bytes, memoryview, array.array[Any], mmap.mmap]) -> int
+        self._check_closed()
         if not self.mode.writing:
             raise IOError("File not open for writing")
 
@@ -291,6 +304,7 @@ class FTPFile(io.RawIOBase):
 
     def writelines(self, lines):
         # type: (Iterable[Union[bytes, memoryview, array.array[Any], mmap.mmap]]) -> None  # noqa: E501
+        self._check_closed()
         if not self.mode.writing:
             raise IOError("File not open for writing")
         data = bytearray()
@@ -304,6 +318,9 @@ class FTPFile(io.RawIOBase):
     def truncate(self, size=None):
         # type: (Optional[int]) -> int
         # Inefficient, but I don't know if truncate is possible with ftp
+        self._check_closed()
+        if not self.mode.writing:
+            raise IOError("File not open for writing")
         with self._lock:
             if size is None:
                 size = self.tell()
@@ -324,6 +341,7 @@ class FTPFile(io.RawIOBase):
         _whence = int(whence)
         if _whence not in (Seek.set, Seek.current, Seek.end):
             raise ValueError("invalid value for whence")
+        self._check_closed()
         with self._lock:
             if _whence == Seek.set:
                 new_pos = pos
@@ -332,7 +350,9 @@ class FTPFile(io.RawIOBase):
             elif _whence == Seek.end:
                 file_size = self.fs.getsize(self.path)
                 new_pos = file_size + pos
-            self.pos = max(0, new_pos)
+            if new_pos < 0:
+                raise ValueError("Negative seek position {}".format(new_pos))
+            self.pos = new_pos
 
             self.ftp.quit()
             self.ftp = self._open_ftp()
